@@ -161,7 +161,6 @@ Proof.
   destruct (tops_pieces mp (tops p) 0) as [ps n]. cbn [fst snd]. rewrite assemble_app. cbn [assemble].
   destruct (assemble mp (map xname (texts p)) opt ps); cbn; rewrite ?app_nil_r; reflexivity.
 Qed.
-Print Assumptions program_is_assembly.
 
 (* a piece and the code that realizes it *)
 Definition realizes (mp : option text) (tl : list text) (opt : bool) (pc : piece) (code : list instr) : Prop :=
@@ -205,7 +204,6 @@ Theorem program_layout opt mp p code :
   emit_program_instrs opt mp p = Ok code <->
   exists codes, Forall2 (realizes mp (map xname (texts p)) opt) (program_pieces mp p) codes /\ code = List.concat codes.
 Proof. rewrite program_is_assembly. apply assemble_ok_iff. Qed.
-Print Assumptions program_layout.
 
 (* the two outputs side by side *)
 Inductive same_layout (mp : option text) (tl : list text) : list piece -> list (list instr) -> list (list instr) -> Prop :=
@@ -236,7 +234,6 @@ Proof.
   intros H0 H1. apply program_layout in H0, H1. destruct H0 as (a & Fa & ->). destruct H1 as (b & Fb & ->).
   exists a, b. split; [apply same_layout_intro; assumption|split; reflexivity].
 Qed.
-Print Assumptions optimize_changes_script_code_only.
 
 (* the same for the printed text *)
 Lemma flat_map_concat {A B} (f : A -> list B) (l : list (list A)) : flat_map f (List.concat l) = List.concat (map (flat_map f) l).
@@ -253,7 +250,6 @@ Proof.
   destruct (optimize_changes_script_code_only mp p c0 c1 E0 E1) as (a & b & S & -> & ->).
   exists a, b. split; [exact S|]. inversion H0; inversion H1; subst. unfold print_instrs. now rewrite !flat_map_concat.
 Qed.
-Print Assumptions optimize_changes_script_text_only.
 
 (* the script pieces are the scripts of the program (script statements and inline mapscripts), in emission order *)
 Definition piece_scripts (ps : list piece) : list NameClash.script :=
@@ -293,7 +289,6 @@ Proof.
   unfold program_pieces. pose proof (tops_pieces_scripts mp (tops p) 0) as H.
   destruct (tops_pieces mp (tops p) 0) as [ps n]. cbn [fst] in H. rewrite piece_scripts_app, H. cbn. now rewrite app_nil_r.
 Qed.
-Print Assumptions program_pieces_scripts.
 
 (* ================================================================================================================== *)
 (* scripts: generic facts about the rendered blocks, for every chunk order                                            *)
@@ -590,7 +585,6 @@ Proof.
   split; [|exact SF].
   rewrite (Mrem_slabs _ SF) in P. etransitivity; [exact P|]. unfold MW, Mrem. cbn. rewrite !app_nil_r. reflexivity.
 Qed.
-Print Assumptions graph_scoped_labels_are_source_labels.
 Local Transparent work_fuel work.
 
 (* ================================================================================================================== *)
@@ -735,7 +729,6 @@ Proof.
   destruct (script_labels mp tl name glob body w HW HS true code1 H1) as (g1 & P1 & N1 & R1).
   exists g0, g1. tauto.
 Qed.
-Print Assumptions script_labels_both.
 
 (* THEOREM (b3): goto lines, blank lines and label lines aside, the two renderings of a script consist of the same
    instructions, each the same number of times: commands, conditional jumps, compare / switch / case lines, return / end,
@@ -748,7 +741,6 @@ Proof.
   intros HW HS H0 H1. etransitivity; [apply (script_essential mp tl name glob body w HW HS false code0 H0)|].
   symmetry. apply (script_essential mp tl name glob body w HW HS true code1 H1).
 Qed.
-Print Assumptions script_code_same_multiset.
 
 Theorem script_commands_same_multiset mp tl name glob body w code0 code1 :
   emit_graph body = Ok w -> src_ok body ->
@@ -758,7 +750,6 @@ Proof.
   intros HW HS H0 H1. pose proof (script_code_same_multiset mp tl name glob body w code0 code1 HW HS H0 H1) as P.
   apply (Permutation_filter' is_cmd) in P. rewrite !filter_filter_impl in P; [exact P| |]; intros [] E; try discriminate E; reflexivity.
 Qed.
-Print Assumptions script_commands_same_multiset.
 
 (* ================================================================================================================== *)
 (* (c2) where the generated gotos point                                                                                *)
@@ -1094,7 +1085,6 @@ Theorem optimized_gotos_go_backward mp tl name glob body w code :
   emit_script mp tl name glob true body = Ok code ->
   forall pre l post, code = pre ++ IGoto l :: post -> ~ In l (lnames post).
 Proof. intros HW HS SZ. exact (optimized_gotos_go_backward_sec mp tl name glob body w HW HS SZ code). Qed.
-Print Assumptions optimized_gotos_go_backward.
 
 (* in particular no generated goto of the optimized output is followed by the definition of its own label - neither on the
    very next line nor later *)
@@ -1108,7 +1098,6 @@ Proof.
   apply (optimized_gotos_go_backward mp tl name glob body w code HW HS SZ H pre l (mid ++ ILabel l g :: post) E).
   rewrite lnames_app. apply in_or_app. right. left. reflexivity.
 Qed.
-Print Assumptions no_goto_to_a_later_label_optimized.
 
 (* THEOREM (c2), either setting, PARTIAL (see the comment at goto_to_next_label_partial_sec for what is missing) *)
 Theorem goto_to_next_label_partial mp tl name glob body w opt code :
@@ -1120,7 +1109,6 @@ Theorem goto_to_next_label_partial mp tl name glob body w opt code :
     order_of opt (finals w) = l1 ++ A :: B :: l2 /\ get_chunk (finals w) A = Some cA /\ get_chunk (finals w) B = Some cB /\
     l = lbl name (tail_of cA) /\ tail_of cA <> B /\ B <> 0%Z /\ cstmts cB = [] /\ ~ In (lbl name B) (targets_of code).
 Proof. intros HW HS SZ. exact (goto_to_next_label_partial_sec mp tl name glob body w HW HS SZ opt code). Qed.
-Print Assumptions goto_to_next_label_partial.
 
 (* validated form for either setting: an executable check of the emitted code against the chunk graph - every chunk other
    than chunk 0 has a statement or is the target of a jump of the code - excludes the situation left open above.  (The check
@@ -1143,7 +1131,6 @@ Proof.
   rewrite (get_chunk_cid' _ _ _ GB), CS in CK. destruct (Z.eqb_spec B 0) as [Q|_]; [contradiction|]. cbn [orb] in CK.
   apply existsb_exists in CK. destruct CK as (x & Hx & Q). apply text_eqb_iff in Q. subst x. exact (NT Hx).
 Qed.
-Print Assumptions no_goto_to_next_label_checked.
 
 (* ================================================================================================================== *)
 (* both settings accept the same scripts and the same programs                                                         *)
@@ -1159,13 +1146,11 @@ Proof.
   - split; intros (code & E); rewrite emit_script_eq, HW in E; discriminate.
   - split; intros (code & E); rewrite emit_script_eq, HW in E; discriminate.
 Qed.
-Print Assumptions optimize_accepts_same_scripts.
 
 Theorem optimize_accepts_same_programs mp p :
   Forall src_ok (ProgWf.bodies_of (tops p)) ->
   ((exists out, emit_program false mp p = Ok out) <-> (exists out, emit_program true mp p = Ok out)).
 Proof. intros S. rewrite (emit_program_accepts_iff false mp p S), (emit_program_accepts_iff true mp p S). reflexivity. Qed.
-Print Assumptions optimize_accepts_same_programs.
 
 (* every script piece of the layout is a script of the program; its body is one of ProgWf.bodies_of *)
 Lemma in_piece_scripts n g b ps : In (PScript n g b) ps -> In (n, g, b) (piece_scripts ps).
@@ -1177,7 +1162,6 @@ Proof.
   intros H. apply in_piece_scripts in H. rewrite program_pieces_scripts in H. split; [exact H|].
   rewrite <- scripts_bodies. apply in_map_iff. exists (n, g, b). split; [reflexivity|exact H].
 Qed.
-Print Assumptions script_pieces_are_program_bodies.
 
 (* ================================================================================================================== *)
 (* from the source text: the premises on the script body hold for every script of every accepted program              *)
@@ -1229,10 +1213,6 @@ Proof.
   apply optimize_accepts_same_programs. apply Forall_forall. intros b Hb. apply accepted_src_ok. exact Hb.
 Qed.
 End FROM_SOURCE.
-Print Assumptions script_labels_from_source.
-Print Assumptions script_code_same_multiset_from_source.
-Print Assumptions optimized_gotos_go_backward_from_source.
-Print Assumptions optimize_accepts_same_from_source.
 
 (* ================================================================================================================== *)
 (* the hypotheses are satisfiable: a concrete program (script with if / else / while / break and two label statements, a   *)
